@@ -288,6 +288,10 @@ pub open spec fn fb_ok(s: Seq<u8>, pt: int) -> bool {
     framed(s, pt, 12)
 }
 
+pub open spec fn img_fb(pt: int, padding: int, format: int, sender: int, media: int, fci: Seq<u8>) -> Seq<u8> {
+    img_header(padding, format, pt, 12 + fci.len() + padding) + img_be32(sender) + img_be32(media) + fci + img_padding(padding)
+}
+
 /// the feedback control information: everything after the two SSRCs and before the padding trailer
 pub open spec fn fb_fci(s: Seq<u8>) -> Seq<u8> {
     s.subrange(12, s.len() - pad_count(s))
